@@ -21,8 +21,9 @@ import (
 
 var utf8Kinds = []string{"telnet-utf8", "ftp-utf8", "memcached-utf8", "smtp-utf8"}
 
-// tcpKinds: what TestTCP / TestEveryCut draw from (the 12 shared grammars + the utf8 kinds).
-var tcpKinds = append(append([]string{}, svc.TCPServices...), utf8Kinds...)
+// tcpKinds: what TestTCP / TestEveryCut draw from (the 12 shared grammars + the utf8 kinds
+// + the large-unit kinds of big_test.go).
+var tcpKinds = append(append(append([]string{}, svc.TCPServices...), utf8Kinds...), bigKinds...)
 
 func genTCP(t *rapid.T, kind string) svc.Dialog {
 	switch kind {
@@ -34,6 +35,9 @@ func genTCP(t *rapid.T, kind string) svc.Dialog {
 		return genMemcachedUTF8(t)
 	case "smtp-utf8":
 		return genSMTPUTF8(t)
+	case "ldap-big", "ipp":
+		d, _ := genTCPHot(t, kind)
+		return d
 	}
 	return svc.GenTCP(t, kind)
 }
